@@ -125,8 +125,12 @@ fn search(args: &HiArgs, mode: SearchMode) -> anyhow::Result<bool> {
         searched = true;
         let search_result = match searcher.search(&haystack) {
             Ok(search_result) => search_result,
-            // A broken pipe means graceful termination.
-            Err(err) if err.kind() == std::io::ErrorKind::BrokenPipe => break,
+            // A broken pipe means graceful termination. Results were being
+            // written when it happened, so bubble it up: `main` turns it
+            // into a successful exit, like in the multi-threaded search.
+            Err(err) if err.kind() == std::io::ErrorKind::BrokenPipe => {
+                return Err(err.into());
+            }
             Err(err) => {
                 err_message!("{}: {}", haystack.path().display(), err);
                 continue;
